@@ -86,6 +86,7 @@ def run(F, R, ctx):
     _run(F, R, ctx)
     float_cast_rule(F, R)
     both_operands_rule(F, R)
+    same_field_rule(F, R)
 
 
 def _run(F, R, ctx):
@@ -372,3 +373,59 @@ def both_operands_rule(F, R):
                            fn.loc(fn.blocks[e].get("line")), sample=(n % 25 == 0))
     R.floor("C10.p", "pair-of-kinds arms in numeric operations", n, 150)
     R.floor("C10.p", "numeric functions matching on a pair of kinds", nf, 10)
+
+
+CMP_CALLEE = re.compile(r"(::eq|::ne|::partial_cmp|::cmp|::lt|::le|::gt|::ge|_equality|::total_cmp)$")
+
+
+def same_field_rule(F, R):
+    R.rule("C10.x", "componentwise comparison pairs like with like: wherever a comparison (eq / ne / partial_cmp / cmp / "
+                    "*_equality) is applied to two values that are fields of two different instances of the same record type "
+                    "(x.re against y.…), both are the same field — comparing x.im with y.re makes (= 1+2i 1+2i) false and "
+                    "(= 2+2i 2+3i) true. Checked over all of the crate's functions; fields are read from the projections that "
+                    "produce the two operands")
+    def field_origin(fn, tok, depth=6):
+        """(record type, field, base local) if the operand is (a reference to / a copy of) a field projection"""
+        seen, st = set(), [(tok, 0)]
+        while st:
+            x, d = st.pop()
+            if x in seen or d > depth:
+                continue
+            seen.add(x)
+            for b in fn.blocks:
+                if b["c"]:
+                    continue
+                for e in b["e"]:
+                    if e[0] != "mv" or e[1].split(".")[0] != x.split(".")[0]:
+                        continue
+                    m_ = re.match(r"^\(?\*?\(?\*?(_\d+)\)?\)?(?:\.0)?\.([a-z_][a-z0-9_]*)$", e[2])
+                    if m_:
+                        adt = [ev[1] for ev in b["e"] if ev[0] == "fld" and ev[2] == m_.group(2)]
+                        if adt:
+                            return adt[0], m_.group(2), m_.group(1)
+                    for y in lib.TOK.findall(e[2]):
+                        st.append((y, d + 1))
+        return None
+    n = 0
+    for name, fn in sorted(F.fns.items()):
+        if not name.startswith("steel::") or "::jit2::" in name:
+            continue
+        for i, cb in fn.calls():
+            if len(cb["args"]) != 2 or not CMP_CALLEE.search(cb["callee"]):
+                continue
+            toks = [lib.TOK.findall(a) for a in cb["args"]]
+            if not toks[0] or not toks[1]:
+                continue
+            a = field_origin(fn, toks[0][0])
+            b = field_origin(fn, toks[1][0])
+            if not a or not b or a[0] != b[0] or a[2] == b[2]:
+                continue
+            n += 1
+            R.inst("C10.x", "%s / %s.%s is compared with the same field of the other operand (line %s)" % (fn.short(), a[0], a[1], cb["line"]),
+                   a[1] == b[1],
+                   "%s compares %s.%s of one operand with %s.%s of the other (%s, line %s): two equal values whose fields differ "
+                   "from each other compare unequal, and unequal ones can compare equal" % (
+                       fn.short(), a[0], a[1], b[0], b[1], lib.short_name(cb["callee"]), cb["line"]), fn.loc(cb["line"]),
+                   sample=(n % 5 == 0))
+    R.floor("C10.x", "field-against-field comparisons of two instances of one record type", n, 3)
+
